@@ -58,6 +58,11 @@ STRUCTS = {
     "tri_pendant": {"vars": {"x": 2, "y": 2, "z": 2, "w": 2},
                     "cons": [["c0", ["x", "y"]], ["c1", ["x", "z"]], ["c2", ["y", "z"]], ["c3", ["x", "w"]]]},
     "pair_dbl":    {"vars": {"x": 2, "y": 2}, "cons": [["c0", ["x", "y"]], ["c1", ["x", "y"]]]},
+    # complete graph on 4 variables: every pseudo-tree is a chain whose leaf has a separator of width 3 (two ancestors
+    # shared between a node's separator and its child's); scopes in mixed orders
+    "k4":          {"vars": {"w": 2, "x": 2, "y": 2, "z": 2},
+                    "cons": [["c0", ["w", "x"]], ["c1", ["x", "y"]], ["c2", ["y", "z"]], ["c3", ["z", "w"]],
+                             ["c4", ["y", "w"]], ["c5", ["x", "z"]]]},
 }
 
 
